@@ -152,15 +152,20 @@ def atan2(ctx, table):
             for yv in ys:
                 sub = {x: xv, y: yv}
                 hit = []
+                def holds(c):
+                    if isinstance(c, alg.BoolOp):
+                        vals = [holds(a_) for a_ in c.args]
+                        return all(vals) if c.op == 'and' else any(vals)
+                    d = sp.sympify(c.a - c.b).subs(sub)
+                    s = 1 if d.is_positive else (-1 if d.is_negative else (0 if d == 0 else None))
+                    if s is None:
+                        raise Unsupported('cannot decide %s' % c)
+                    r = c.rel()
+                    return {'<': s < 0, '<=': s <= 0, '>': s > 0, '>=': s >= 0, '==': s == 0, '!=': s != 0}[r]
                 for lf in lv:
                     ok = True
                     for c in lf.pc:
-                        d = sp.sympify(c.a - c.b).subs(sub)
-                        s = 1 if d.is_positive else (-1 if d.is_negative else (0 if d == 0 else None))
-                        if s is None:
-                            raise Unsupported('cannot decide %s' % c)
-                        r = c.rel()
-                        if not {'<': s < 0, '<=': s <= 0, '>': s > 0, '>=': s >= 0, '==': s == 0, '!=': s != 0}[r]:
+                        if not holds(c):
                             ok = False
                             break
                     if ok:
@@ -324,8 +329,9 @@ def expm1_rule(ctx, table):
             continue
         f = sp.lambdify(x, r, 'mpmath')
         worst = (mp.mpf(0), None)
-        for k in range(-256, 257):
-            xv = mp.mpf(k) / 512
+        G = 4096 if ctx.tier == 'thorough' else 256
+        for k in range(-G, G + 1):
+            xv = mp.mpf(k) / (2 * G)
             if k == 0:
                 continue
             n += 1
@@ -345,7 +351,7 @@ def expm1_rule(ctx, table):
     elif n == 0:
         rep.unk('R2c', name, 'the rational branch was not found (%d branches)' % nb, loc=loc)
     else:
-        rep.ok('R2c', name, 'exp(x) - 1 outside [-1/2, 1/2]; inside, the rational form with the unit\'s coefficient tables agrees with expm1 to 4 eps on a 512-point grid', loc=loc,
+        rep.ok('R2c', name, 'exp(x) - 1 outside [-1/2, 1/2]; inside, the rational form with the unit\'s coefficient tables agrees with expm1 to 4 eps on a %d-point grid' % n, loc=loc,
                sample={'fn': name, 'grid': n})
 
 
